@@ -854,7 +854,7 @@ def gen_grid(g):
         e = r.randint(0, 4)
         n = r.randint(2, g.cfg.get('grid_n_max', 120))
         if g.chance(0.004):
-            n = r.randint(1001, 2300)          # a long run
+            n = r.choice([r.randint(1001, 2300), r.randint(4097, 6500)])  # a long run
         dt_dec = Decimal(_dec_str(m, e))
         dt = float(dt_dec)
         op = {'op': 'run', 'dt': [dt, u], 'n': n, 'control': False,
@@ -1806,6 +1806,16 @@ def gen_decl(g):
                     if model.judge(d2)[0] == 'accept':
                         decls.append(d2)
                         model.apply(d2)
+                if els[d['m']]['kind'] == 'WormGear' and g.chance(0.35):
+                    # ... and exactly on the threshold float the library
+                    # itself computes (resolved by the executor), or one or
+                    # two ulps beside it: "f > cos(alpha)*tan(beta)" is strict
+                    d3 = dict(d, f=float(thr),
+                              f_at={'ulps': r.choice([0, 0, 1, -1, 2])})
+                    d3.pop('fault', None)
+                    if model.judge(d3)[0] in ('accept', 'undecided'):
+                        decls.append(d3)
+                        model.apply(d3)
     scn = {'seed': g.seed, 'profile': 'decl', 'elements': els, 'decls': decls,
            'motor': 0, 'track_relations': True, 'assemble': True,
            'wall': 1.0, 'schedule': []}
@@ -1942,10 +1952,19 @@ PROFILES['stress'] = gen_stress
 
 def gen_conv(g):
     r = g.rng
-    scn, model, chain = base_scenario(
-        g, 'conv', n_target=r.choice([2, 3, 4, 5, 6, 8]),
-        force_worm=True if g.chance(0.25) else False, self_locking=False,
-        data_level=0)
+    hoist = g.chance(0.12)
+    if hoist:
+        # a SELF-LOCKING chain whose load aids the commanded motion (a worm
+        # hoist lowering its weight): speed and duty cycle keep the same
+        # sign, the lock never engages and the closed form applies
+        scn, model, chain = base_scenario(
+            g, 'conv', n_target=r.choice([3, 4, 5, 6]), force_worm=True,
+            self_locking=True, data_level=0, allow_wheel_master=False)
+    else:
+        scn, model, chain = base_scenario(
+            g, 'conv', n_target=r.choice([2, 3, 4, 5, 6, 8]),
+            force_worm=True if g.chance(0.25) else False, self_locking=False,
+            data_level=0)
     mot = scn['elements'][0]
     msi = model.e[0]
     k1, R, E, J = rm.rate_constant(model, chain)
@@ -1958,11 +1977,18 @@ def gen_conv(g):
     stall = msi['Tmax'] * E * R
     TL = stall * r.choice([0.0, r.uniform(-1, 1), r.uniform(-0.9, 0.9),
                            r.uniform(1.0, 2.5), -r.uniform(1.0, 2.5)])
-    scn['load'] = {'terms': [{'t': 'const', 'c': TL}], 'unit': g.unit('Torque')}
     w_out = msi['w0'] / R
+    w_init = r.choice([0.0, r.uniform(-1.5, 1.5) * w_out])
+    if hoist:
+        if D == 0:
+            D = 1
+        sgn = 1 if D > 0 else -1
+        TL = -sgn * stall * r.choice([0.0, r.uniform(0.05, 1.0),
+                                      r.uniform(1.0, 2.5)])
+        w_init = sgn * abs(w_init)
+    scn['load'] = {'terms': [{'t': 'const', 'c': TL}], 'unit': g.unit('Torque')}
     scn['init'] = {'position': g.q('AngularPosition', r.uniform(-3, 3)),
-                   'speed': g.q('AngularSpeed', r.choice(
-                       [0.0, r.uniform(-1.5, 1.5) * w_out])),
+                   'speed': g.q('AngularSpeed', w_init),
                    'pwm': D}
     via_rule = g.chance(0.3)
     scn['conv'] = {'kdts': [0.2, 0.1, 0.05, 0.025] +
